@@ -246,7 +246,7 @@ def case_fn(case):
                     r.eq(fk, comps_x[n_], 'degenerate-equals-xsec', 'degenerate/component/' + case['kind'], rtol=1e-9,
                          component=n_)
                 elif n_ in comps_x:
-                    r.check(bool(np.all(np.abs(fk - comps_x[n_]) <= 2 * L * scale + 1e-9 * np.abs(comps_x[n_]))),
+                    r.check(bool(np.all(np.abs(fk - comps_x[n_]) <= 2 * L * scale + SLK * np.abs(comps_x[n_]))),
                             'degenerate-equals-xsec', 'degenerate/component/' + case['kind'], component=n_, got=fk,
                             want=comps_x[n_])
         if case['kind'] == 'transmission':
